@@ -155,6 +155,50 @@ func RunPair(env *Env, plan *PairPlan) {
 			}
 		}
 	}
+	cfgOf := func(h *simrt.Host) *torrent.Config {
+		for _, n := range env.nodes {
+			if n.Host == h {
+				return &n.Cfg
+			}
+		}
+		return nil
+	}
+	// C12, policy clause: a session that forces encryption never uses a connection in the clear
+	checkEnc := func() {
+		tap.mu.Lock()
+		for _, p := range env.Net.Pairs() {
+			f := tap.first[p.ID]
+			if f == nil {
+				continue
+			}
+			dialer, acceptor := cfgOf(p.HostA), cfgOf(p.HostB)
+			plainOut := len(f[0]) >= 20 && bytes.HasPrefix(f[0], []byte(btProto))
+			if dialer != nil && dialer.ForceOutgoingEncryption && plainOut {
+				simrt.Violate("C12", "policy.forced_out_plaintext", "%s forces outgoing encryption but opened connection #%d to %s with a plaintext handshake", p.HostA.Name, p.ID, p.HostB.Name)
+			}
+			if acceptor != nil && acceptor.ForceIncomingEncryption && plainOut && len(f[1]) > 0 {
+				simrt.Violate("C12", "policy.forced_in_answered_plaintext", "%s forces incoming encryption but answered the plaintext handshake of %s on connection #%d (%d bytes written)", p.HostB.Name, p.HostA.Name, p.ID, len(f[1]))
+			}
+		}
+		tap.mu.Unlock()
+		for _, n := range env.nodes {
+			if n.Closed {
+				continue
+			}
+			var ps []torrent.Peer
+			n.In(func() {
+				if t := n.Sess.GetTorrent("tt"); t != nil {
+					ps = t.Peers()
+				}
+			})
+			for _, q := range ps {
+				in := q.Source == torrent.SourceIncoming
+				if ((in && n.Cfg.ForceIncomingEncryption) || (!in && n.Cfg.ForceOutgoingEncryption)) && !q.EncryptedStream {
+					simrt.Violate("C12", "policy.unencrypted_peer", "%s forces encryption (incoming=%v) but reports peer %s with encrypted handshake=%v stream=%v", n.Host.Name, in, q.Addr, q.EncryptedHandshake, q.EncryptedStream)
+				}
+			}
+		}
+	}
 	for simrt.Now() < deadline {
 		all := true
 		for _, l := range ls {
@@ -169,6 +213,7 @@ func RunPair(env *Env, plan *PairPlan) {
 			}
 		}
 		checkIDs()
+		checkEnc()
 		if all {
 			break
 		}
@@ -177,6 +222,10 @@ func RunPair(env *Env, plan *PairPlan) {
 	for _, l := range ls {
 		var st torrent.Stats
 		l.n.In(func() { st = l.tor.Stats() })
+		if !l.done && plan.KA.ForceIncomingEncryption && plan.KB.DisableOutgoingEncryption {
+			simrt.Count("probe.pair.incompatible_policies_no_transfer", 1)
+			continue
+		}
 		if !l.done {
 			var ps []string
 			l.n.In(func() {
@@ -212,18 +261,20 @@ func init() {
 		pp := &PairPlan{Layout: gen.RandomLayout(r, o), Net: netCfg(r), Leechers: simrt.Pick(r, []int{1, 1, 2}), Bound: 20 * time.Minute, SeederDials: false}
 		pp.Net.FragMode = simrt.Pick(r, []int{0, 1, 1, 2})
 		pp.Net.ShortReadP = r.Float()
-		// encryption policies that can talk to each other
-		switch r.Intn(4) {
-		case 0:
-			pp.KB.DisableOutgoingEncryption, pp.KA.DisableOutgoingEncryption = true, true
-		case 1:
-			pp.KB.ForceOutgoingEncryption, pp.KA.ForceIncomingEncryption = true, true
-			pp.KA.ForceOutgoingEncryption, pp.KB.ForceIncomingEncryption = true, true
-		case 2:
-			pp.KA.ForceIncomingEncryption = !pp.SeederDials
-			pp.KB.ForceIncomingEncryption = pp.SeederDials
-		case 3:
-			// defaults: try encryption first, accept both
+		// encryption policies, each side drawn on its own ('disable' and 'force' never both)
+		pol := func(k *Knobs) {
+			switch r.Intn(3) {
+			case 0:
+				k.DisableOutgoingEncryption = true
+			case 1:
+				k.ForceOutgoingEncryption = true
+			}
+			k.ForceIncomingEncryption = r.Chance(0.4)
+		}
+		pol(&pp.KA)
+		pol(&pp.KB)
+		if pp.KA.ForceIncomingEncryption && pp.KB.DisableOutgoingEncryption {
+			pp.Bound = 2 * time.Minute // nothing can be transferred: only the policy oracles run
 		}
 		if r.Chance(0.4) {
 			pp.KA.MaxRequestsIn = r.Range(1, 20)
